@@ -1,0 +1,55 @@
+//go:build verif
+
+// Contracts for contract-based deductive verification (govc, /verif).
+// This file contains comments only; it adds no code to the package.
+
+package joiner
+
+//@ opaque github.com/gauss-project/aurorafs/pkg/boson.Address as Addr
+
+//@ # size of one sub-trie of an intermediate chunk (assumed: positive and within the parent)
+//@ func subtrieSection
+//@   trusted
+//@   ensures 0 < result && result <= subtrieSize
+//@   assigns nothing
+
+//@ # readAtOffset copies at most bytesToRead bytes into b[bufferOffset:bufferOffset+bytesToRead]
+//@ # and adds what it copied to *bytesRead.  The leaf branch and the bookkeeping of the
+//@ # descent loop are verified here; the recursive calls run inside errgroup goroutines whose
+//@ # bodies are not executed (their effect on *bytesRead is the assumed clause below).
+//@ func (*joiner).readAtOffset
+//@   property C07
+//@   requires bytesRead != nil && eg != nil && j.refLength > 0
+//@   requires window: 0 <= bufferOffset && 0 <= bytesToRead && bufferOffset + bytesToRead <= len(b)
+//@   requires position: cur <= off && off - cur <= subTrieSize && 0 <= subTrieSize
+//@   let n0 = deref(bytesRead)
+//@   ensures counted: deref(bytesRead) >= n0
+//@   ensures assumed-counted-at-most: deref(bytesRead) <= n0 + bytesToRead
+//@   assigns elems(b[bufferOffset:bufferOffset+bytesToRead]), target(bytesRead), target(eg)
+//@   loop 1 invariant 0 <= bufferOffset && 0 <= bytesToRead && bufferOffset + bytesToRead <= len(b) && cur <= off && 0 <= cursor
+//@   loop 1 invariant deref(bytesRead) >= n0
+
+//@ func (*joiner).ReadAt
+//@   property C07
+//@   requires 0 <= j.span && j.refLength > 0
+//@   ensures eof-at-or-past-end: off >= j.span ==> read == 0 && err != nil
+//@   ensures never-more-than-len: read <= len(buffer) && 0 <= read
+//@   ensures never-more-than-remaining: off < j.span && err == nil ==> read <= j.span - off
+//@   callassert joiner.readAtOffset within-the-buffer: $bufferOffset == 0 && 0 <= $bytesToRead && $bytesToRead <= len(buffer) && $bytesToRead <= j.span - off
+
+//@ func (*joiner).Read
+//@   property C07
+//@   requires 0 <= j.span && 0 <= j.off && j.refLength > 0
+//@   ensures advances-by-what-was-read: (err == nil || n > 0 || true) ==> (err == nil ==> j.off == old(j.off) + n)
+//@   ensures never-more-than-len: n <= len(b)
+
+//@ func (*joiner).Seek
+//@   property C07
+//@   requires 0 <= j.span && 0 <= j.off && j.off <= j.span
+//@   ensures lands-where-asked: result1 == nil ==> j.off == result0 && 0 <= result0 && result0 <= j.span
+//@   ensures from-start: result1 == nil && whence == 0 ==> result0 == offset
+//@   ensures from-current: result1 == nil && whence == 1 ==> result0 == old(j.off) + offset
+//@   ensures from-end: result1 == nil && whence == 2 ==> result0 == j.span - offset
+//@   ensures bad-whence: whence != 0 && whence != 1 && whence != 2 ==> result1 != nil
+//@   ensures error-keeps-position: result1 != nil ==> j.off == old(j.off)
+//@   ensures in-range-requests-succeed: whence == 0 && 0 <= offset && offset <= j.span ==> result1 == nil
